@@ -579,6 +579,9 @@ def c08(sc, ctx, ex, ob, V, P):
 # C14 outcome typing
 
 def c14_outcome(sc, ex, V, P, expected=None):
+    if ex.status == 'timeout':
+        V('does-not-terminate', sc.sched, 'calc was still running after the watchdog limit (its inputs are bounded: 100 000-day horizons, <= 40 tasks)')
+        return
     if ex.status == 'budget':
         V('lookup-budget-exceeded', sc.sched, f'calc looked at more than {ex.lookups - 1} calendar days (3x the documented horizons)')
         return
